@@ -33,7 +33,16 @@ async def run_case(case):
     done = anyio.Event()
 
     def handler(exc):
-        k = exc.args[0] if isinstance(exc, TaskError) else -1
+        found = []
+
+        def walk(x):
+            if isinstance(x, BaseExceptionGroup):
+                for y in x.exceptions:
+                    walk(y)
+            elif isinstance(x, TaskError):
+                found.append(x)
+        walk(exc)
+        k = found[0].args[0] if found else -1
         d.obs("Handler", k[0] if isinstance(k, tuple) else k, k[1] if isinstance(k, tuple) else -1)
         return verdict
 
@@ -54,6 +63,12 @@ async def run_case(case):
                     raise TaskError((k, oncancel))
                 raise
             if ending[0] == "ERaise":
+                if k % 2:
+                    # the Exception escapes the task while its own context is being torn down
+                    def failing_cleanup():
+                        raise TaskError((k, ending[1]))
+                    ctx.add_teardown_callback(failing_cleanup)
+                    return
                 raise TaskError((k, ending[1]))
         return task
 
@@ -137,7 +152,15 @@ async def run_case(case):
             if done.is_set() and g[0] != "Spawn":
                 break
             kind = g[0]
-            if kind == "Spawn":
+            if kind == "SpawnCancel":
+                _, segs, ending, how, where, oc, _k = g
+                before = len(st["handles"])
+                st["cancel_req"].add(nspawn)
+                await do_spawn(tg, nspawn, segs, ending, "soon", oc)
+                if len(st["handles"]) > before:
+                    st["handles"][-1].cancel()          # before the task has run at all
+                nspawn += 1
+            elif kind == "Spawn":
                 _, segs, ending, how, where = g[:5]
                 st["cmd"] = (nspawn, segs, ending, how, g[5] if len(g) > 5 else None)
                 nspawn += 1
